@@ -41,6 +41,14 @@ SDP_UUIDS = ['1101', '110A', '110B', '1200', '0100', '0003', 'F0F1', '5B8E2E35-2
 
 # ====================================================================================== SDP
 def gen_sdp(rng, tier, seed):
+    if rng.random() < 0.03:
+        # an answer that needs (almost) exactly as many continuation rounds as the client is willing to make: at MTU 48 a
+        # ServiceSearch response carries 9 handles, so 559..576 matching records take 63 or 64 rounds
+        n = rng.choice([559, 567, 568, 570, 576])
+        u = SDP_UUIDS[0]
+        records = [[0x10000 + r * 3, [[0x0001, ['uuid', u]]]] for r in range(n)]
+        return {'records': records, 'nclients': 1, 'mtus': [48, 48, 48], 'queries': [['search_services', [u], [[0, 0xFFFF]], 0]], 'profile': 'zero',
+                'concurrent': False, 'abandon': [None]}
     nrec = rng.choice([1, 2, 3, 5, 8, 12])
     records = []
     for r in range(nrec):
@@ -233,7 +241,8 @@ def run_sdp(case):
             mode = ('one-client' if k == 1 else ('clients-simultaneous' if case['concurrent'] else 'clients-connected-queries-sequential'))
             for i, t in tasks:
                 want, rounds = expect(q, min(case['mtus'][i], 65535))
-                if rounds > 60:
+                # (the round count of a ServiceSearch answer is exact; the others are estimates, with a margin)
+                if rounds > (64 if q[0] == 'search_services' else 60):
                     sim.probe('sdp_answer_beyond_continuation_limit')
                     if not t.done():
                         t.cancel()
